@@ -277,3 +277,157 @@ contract(
     props=('C03', 'C16'),
     note='name set: removed (+ one DELETED entry), Canon kept; otherwise AttributeError, unchanged',
 )
+
+
+# --- Buildable.__getitem__ ----------------------------------------------------------------
+def NoSentinel(h, Av):
+  """No stored argument value is the NO_VALUE sentinel itself."""
+  k = z3.Const('ns_k', Val)
+  A = ref(Av)
+  return FA([k], z3.Implies(h.has(A, k), h.dget(A, k) != NO_VALUE), patterns=[h.has(A, k)])
+
+
+def key_shape(h, g, k):
+  """int, VARARGS (only with *args), or a slice of such components."""
+  comp_ok = lambda x: z3.Or(is_VNone(x), is_VInt(x), z3.And(x == VARARGS, sig_vps(g) >= 0))
+  return z3.Or(is_VInt(k), z3.And(k == VARARGS, sig_vps(g) >= 0),
+               z3.And(isref(h, k, 'slice'), comp_ok(h.fld(ref(k), 'start')),
+                      comp_ok(h.fld(ref(k), 'stop')),
+                      z3.Or(is_VNone(h.fld(ref(k), 'step')), is_VInt(h.fld(ref(k), 'step')))))
+
+
+def _gi_terms(c):
+  h = c.old
+  sv = c['self']
+  g = bsig(h, sv)
+  A = ref(bfields(h, sv)[1])
+  has0, val0 = h.hasarr(A), h.valarr(A)
+  L = Lfull(g, has0)
+  k = c['key']
+  k1 = z3.If(k == VARARGS, vps_val(g), k)
+  j = z3.If(ival(k1) < 0, ival(k1) + L, ival(k1))
+  return h, g, A, has0, val0, L, k, j
+
+
+def _gi_req(c):
+  h, g, A, has0, val0, L, k, j = _gi_terms(c)
+  return z3.And(BInv(h, c['self']), NoSentinel(h, bfields(h, c['self'])[1]), key_shape(h, g, k))
+
+
+def _gi_post(c):
+  h0, g, A, has0, val0, L, k, j = _gi_terms(c)
+  h = c.heap
+  rep = lambda x: z3.If(x == VARARGS, vps_val(g), x)
+  from pyvc.calls import slice_indices, range_len
+  lo, hi, st = rep(h0.fld(ref(k), 'start')), rep(h0.fld(ref(k), 'stop')), h0.fld(ref(k), 'step')
+  a, b, cc = slice_indices(lo, hi, st, L)
+  r = ref(c.result)
+  t = z3.Int('gi_t')
+  n = z3.If(cc == 1, z3.If(b > a, b - a, 0), range_len(a, b, cc))
+  by_slice = z3.And(is_VRef(c.result), r >= h0.alloc, cls_is(h.cls(r), 'list'), h.len(r) == n,
+                    FA([t], z3.Implies(z3.And(0 <= t, t < n),
+                                       h.elt(r, t) == Lf(g, has0, val0, a + t * cc)),
+                       patterns=[h.elt(r, t)]))
+  return z3.If(isref(h0, k, 'slice'), by_slice, c.result == Lf(g, has0, val0, j))
+
+
+def _gi_oob(c):
+  h, g, A, has0, val0, L, k, j = _gi_terms(c)
+  return z3.And(z3.Not(isref(h, k, 'slice')), z3.Not(z3.And(0 <= j, j < L)))
+
+
+def _gi_slice0(c):
+  h, g, A, has0, val0, L, k, j = _gi_terms(c)
+  st = h.fld(ref(k), 'step')
+  return z3.And(isref(h, k, 'slice'), is_VInt(st), ival(st) == 0)
+
+
+def _gi_inv(c):
+  h0, g, A, has0, val0, L, k, j = _gi_terms(c)
+  h = c.heap
+  l, pl = ref(c.v('all_positional_args')), ref(c.v('params'))
+  i = z3.Int('gi_i')
+  return z3.And(
+      0 <= c.k, c.k <= L,
+      is_VRef(c.v('all_positional_args')), l >= h0.alloc, l < h.alloc, cls_is(h.cls(l), 'list'),
+      is_VRef(c.v('params')), pl >= h0.alloc, pl < h.alloc, pl != l, cls_is(h.cls(pl), 'list'),
+      h.len(pl) == sig_n(g),
+      FA([i], z3.Implies(z3.And(0 <= i, i < sig_n(g)), h.elt(pl, i) == VParam(g, i)),
+         patterns=[h.elt(pl, i)]),
+      h.len(l) == L,
+      FA([i], z3.Implies(z3.And(0 <= i, i < L), h.elt(l, i) == Lf(g, has0, val0, i)),
+         patterns=[h.elt(l, i)]),
+      c.v('key') == z3.If(isref(h0, k, 'slice'), c.v('key'), z3.If(k == VARARGS, vps_val(g), k)),
+      z3.Implies(isref(h0, k, 'slice'), z3.And(
+          isref(h, c.v('key'), 'slice'),
+          h.fld(ref(c.v('key')), 'start') == z3.If(h0.fld(ref(k), 'start') == VARARGS, vps_val(g),
+                                                   h0.fld(ref(k), 'start')),
+          h.fld(ref(c.v('key')), 'stop') == z3.If(h0.fld(ref(k), 'stop') == VARARGS, vps_val(g),
+                                                  h0.fld(ref(k), 'stop')),
+          h.fld(ref(c.v('key')), 'step') == h0.fld(ref(k), 'step'))))
+
+
+contract(
+    'config.Buildable.__getitem__', F, 'Buildable.__getitem__',
+    requires=_gi_req, ensures=_gi_post,
+    raises={'IndexError': _gi_oob, 'ValueError': _gi_slice0},
+    loops={0: Loop(_gi_inv, mod=lambda c: [ref(c.v('all_positional_args'))], fields=[])},
+    props=('C01', 'C03', 'C17'),
+    note='cfg[key] is Lf[key] with python list semantics (IndexError included); self unchanged',
+)
+
+
+# --- Buildable._set_item_by_index -----------------------------------------------------------
+def _sii_terms(c):
+  h = c.old
+  sv = c['self']
+  g = bsig(h, sv)
+  A = ref(bfields(h, sv)[1])
+  has0 = h.hasarr(A)
+  L = Lfull(g, has0)
+  idx = ival(c['key'])
+  j = z3.If(idx < 0, idx + L, idx)
+  skey = z3.If(j < sig_npos(g), poskey(g, j), IK(j))
+  return h, g, A, has0, L, j, skey
+
+
+def _sii_req(c):
+  h = c.old
+  v = c['value']
+  return z3.And(BInv(h, c['self']), is_VInt(c['key']),
+                z3.Implies(isref(h, v, 'TaggedValueCls'),
+                           z3.And(BFields(h, v), ref(v) != ref(c['self']))))
+
+
+def _sii_oob(c):
+  h, g, A, has0, L, j, skey = _sii_terms(c)
+  return z3.Not(z3.And(0 <= j, j < L))
+
+
+def _sii_post(c):
+  h0, g, A, has0, L, j, skey = _sii_terms(c)
+  c2 = type(c)({'self': c['self'], 'key': skey, 'value': c['value']}, h0, c.heap, result=c.result)
+  return z3.And(_asv_post(c2), BInv(c.heap, c['self']))
+
+
+def _sii_mod(c):
+  h0, g, A, has0, L, j, skey = _sii_terms(c)
+  return _b_mod(type(c)({'self': c['self']}, c.old, c.old), skey, tags=True)
+
+
+contract(
+    'config.Buildable._set_item_by_index', F, 'Buildable._set_item_by_index',
+    requires=_sii_req, ensures=_sii_post, raises={'IndexError': _sii_oob},
+    raises_post={'IndexError': _unchanged}, result='none', mod=_sii_mod, writes=WRITES,
+    facts=_nvar_same,
+    loops={0: Loop(lambda c: z3.And(
+        0 <= c.k, c.k <= sig_n(bsig(c.old, c['self'])),
+        c.v('positional_num') == VInt(z3.If(c.k < sig_npos(bsig(c.old, c['self'])), c.k,
+                                            sig_npos(bsig(c.old, c['self'])))),
+        c.v('key') == _sii_terms(c)[6], c.v('value') == c['value'], c.v('self') == c['self']),
+                   mod=lambda c: [], fields=[])},
+    cases=lambda c: [isref(c.old, c['value'], 'TaggedValueCls'), H.tracking_on(c.old)],
+    props=('C03', 'C16'),
+    note='list position j (negative indices normalised): A[key(j)] := value for 0 <= j < len, '
+         'IndexError and nothing changes otherwise; Canon kept',
+)
